@@ -23,7 +23,7 @@ import (
 	"github.com/imroc/req/v3/internal/verifh"
 )
 
-func bufioReader(s string) *bufio.Reader { return bufio.NewReader(strings.NewReader(s)) }
+func c17BufioReader(s string) *bufio.Reader { return bufio.NewReader(strings.NewReader(s)) }
 
 // ---- generators shared by the C17 lanes ---------------------------------------------------
 
@@ -209,7 +209,7 @@ func (o *c17Origin) handler(w http.ResponseWriter, r *http.Request) {
 			}
 			return
 		}
-		w.Header().Set("Content-Length", itoa64(int64(len(b))))
+		w.Header().Set("Content-Length", c17Itoa64(int64(len(b))))
 		w.Write(b)
 		return
 	}
@@ -221,7 +221,7 @@ func (o *c17Origin) handler(w http.ResponseWriter, r *http.Request) {
 	w.WriteHeader(200)
 }
 
-func itoa64(n int64) string {
+func c17Itoa64(n int64) string {
 	var b [20]byte
 	i := len(b)
 	if n == 0 {
